@@ -382,7 +382,9 @@ func c06model(c *Ctx) {
 			if s, ok := strOf(res[0]); !ok || s != "<json>" {
 				msg = "Encode does not return the bytes json.Marshal produced"
 			}
-			if eq, ok := oEqual(res[1], oNil{}); !ok || !eq {
+			if eq, ok := oEqual(res[1], oNil{}); !ok {
+				unk = "Encode: the error result is " + showVal(res[1])
+			} else if !eq {
 				msg = "Encode returns an error although json.Marshal succeeded"
 			}
 			obj, ok := marshalled[0].(oIface)
